@@ -261,6 +261,27 @@ func overlayPairs(hdir, mod, moddir string) (map[string]string, error) {
 	if err != nil && !os.IsNotExist(err) {
 		return nil, err
 	}
+	// <hdir>/shared/<module>/<pkg>/zz_*.go: export shims overlaid into a module of /repo whichever module is loaded
+	// (the modules depend on each other through replace directives, so a harness of one module can use them)
+	repo := moddir
+	if mod != "root" {
+		repo = filepath.Dir(moddir)
+	}
+	for _, sm := range []string{"root", "estargz", "cmd"} {
+		sroot := filepath.Join(hdir, "shared", sm)
+		target := repo
+		if sm != "root" {
+			target = filepath.Join(repo, sm)
+		}
+		filepath.Walk(sroot, func(p string, info os.FileInfo, err error) error {
+			if err != nil || info.IsDir() || !strings.HasSuffix(p, ".go") {
+				return nil
+			}
+			rel, _ := filepath.Rel(sroot, p)
+			pairs[filepath.Join(target, rel)] = p
+			return nil
+		})
+	}
 	rt, _ := filepath.Glob(filepath.Join(hdir, "rt", "*.go"))
 	for _, p := range rt {
 		pairs[filepath.Join(moddir, "zzverifrt", filepath.Base(p))] = p
